@@ -1,4 +1,4 @@
-import QuinnModel.Lemmas.IndexTuple
+import QuinnModel.Lemmas.IndexStable
 /-
 C09 — Datagrams reach the right connection; connections are isolated.   (property theorems only)
 
@@ -10,109 +10,39 @@ NeedIdentifiers n | RetireConnectionId seq | ResetToken (remote, token) | Draine
 drawn by `new_cid` as explicit inputs; `run` is `none` where the real call panics.  Every theorem
 quantifies over ALL histories, CID lengths and both preferred-address settings.
 
-Two statements are false of the code as it is; each is kept at full strength with a counterexample proved
-from a concrete history and a `_partial` theorem that excludes exactly the offending family:
- * F5: `ConnectionIndex::remove` deletes the address-tuple entries by address without checking that they
-   belong to the drained handle (`routing_counterexample`, `routing_partial`);
- * `Endpoint::connect` registers the new local CID before the fallible TLS `start_session(..)?`; on error
-   the CID stays registered for a handle that does not exist (`routing_sound_counterexample`,
-   `routing_sound_partial`).
+The model follows the code after two repairs (`fix:` commits): `ConnectionIndex::remove` drops an
+address-tuple entry only if it still belongs to the connection being removed (F5), and `Endpoint::connect`
+unregisters the local CID when the TLS `start_session` fails.  With them every statement below holds without
+side condition, except the two about zero-length CIDs that are inherently limited by "one hash-map slot per
+address tuple": when a newer connection is established on a tuple that a live connection already uses, the
+newer one takes the slot (`insert_conn` overwrites) — that is stated exactly (`tuple_routes_until_superseded`),
+and `routing_tuples` assumes it does not happen (`UniqueTupleKeys`).
 -/
 namespace QM.Props.C09
 open QM QM.Index
 
-/-- zero-length CIDs: a live connection that no other live connection conflicts with (same tuple / same
-    remote, see `Conflict`) is registered under its address tuple -/
-def TupleOwnerRouted (s : State) : Prop :=
-  s.cidLen = 0 → ∀ h m, s.conns.get h = some m →
-    (∀ h' m', s.conns.get h' = some m' → h' ≠ h → ¬ Conflict m m' ∧ ¬ Conflict m' m) →
-    (m.side = .server → alookup m.addresses s.index.inRemotes = some h) ∧
-    (m.side = .client → alookup m.addresses.remote s.index.outRemotes = some h)
-
-/-- invariant `Routing`: every key of every table maps to a live handle that owns it, every CID issued
-    and not retired by a live connection (and every initial DCID) maps to it (`Sound`), and with
-    zero-length CIDs the sole claimant of an address tuple is registered under it -/
-structure Routing (s : State) : Prop where
-  sound : Sound s
-  tuple : TupleOwnerRouted s
-
 /-! ### the routing invariant -/
 
-def routing_statement : Prop :=
-  ∀ (cidLen : Nat) (pref : Bool) (ops : List Op) (s : State), run cidLen pref ops = some s → Routing s
+/-- `Routing`: after ANY history every key of every table maps to a live handle that owns it, every CID
+    issued and not retired by a live connection and every initial DCID (of a live incoming connection or a
+    pending attempt) maps to it, sequence numbers and CIDs of a connection correspond one to one, and the
+    reset-token table holds only tokens a live connection's peer currently uses (`Sound`) -/
+theorem routing (cidLen : Nat) (pref : Bool) (ops : List Op) (s : State)
+    (hr : run cidLen pref ops = some s) : Sound s :=
+  sound_run hr
 
-def tupleA : FourTuple := ⟨⟨167772161, 5000⟩, some 3232235777⟩
+/-- no history adds a connection whose tuple-table key (incoming: the 4-tuple, outgoing: the remote) is in
+    use by a live connection of the same side; vacuous unless the endpoint uses zero-length CIDs.  For
+    outgoing connections this is the documented caller contract ("at most one client connection with
+    zero-length local CIDs may be established per remote"); for incoming ones it is the peer's behaviour -/
+def UniqueTupleKeys (cidLen : Nat) (pref : Bool) (ops : List Op) : Prop :=
+  Along AddsDisjoint (init cidLen pref) ops
 
-/-- F5 witness (zero-length CIDs): a client reconnects from the same address tuple while its first
-    connection is still draining; when the first connection is drained the second one loses its routing
-    entry.  Replayed on the real endpoint from `corpus/cindex/F5.ops`. -/
-def F5_witness : List Op :=
-  [.first tupleA [0xd1, 0xd1, 0xd1, 0xd1, 0xd1, 0xd1, 0xd1, 0xd1] [], .accept 0 .ok [],
-   .first tupleA [0xd2, 0xd2, 0xd2, 0xd2, 0xd2, 0xd2, 0xd2, 0xd2] [], .accept 0 .ok [],
-   .event 0 [] .drained]
-
-def F5_meta : Meta := ⟨[0xd2, 0xd2, 0xd2, 0xd2, 0xd2, 0xd2, 0xd2, 0xd2], 1, [(0, [])], tupleA, .server, none⟩
-
-def F5_final : State :=
-  { cidLen := 0, prefAddr := false,
-    index := { idsInitial := [([0xd2, 0xd2, 0xd2, 0xd2, 0xd2, 0xd2, 0xd2, 0xd2], .connection 1)] },
-    conns := ⟨[.vacant 2, .occupied F5_meta], 0⟩,
-    incoming := ⟨[.vacant 1], 0⟩ }
-
-theorem F5_witness_run : run 0 false F5_witness = some F5_final := by decide
-
-/-- the routing invariant is FALSE of the code as it is (F5): after the witness history connection 1 is
-    the only live connection, owns `tupleA`, and no table routes `tupleA` to it -/
-theorem routing_counterexample : ¬ routing_statement := by
-  intro hst
-  have hr := (hst 0 false F5_witness F5_final F5_witness_run).tuple
-  have h1 := hr rfl 1 F5_meta (by decide : F5_final.conns.get 1 = some F5_meta) (by
-    intro h' m' hg hne
-    exfalso
-    match h', hne, hg with
-    | 0, _, hg => simp [F5_final, Slab.get] at hg
-    | (n + 2), _, hg => simp [F5_final, Slab.get] at hg)
-  have := h1.1 rfl
-  simp [F5_final, F5_meta, tupleA] at this
-
-/-- the history never calls `connect` with a TLS layer that rejects the session, and never adds a
-    connection that conflicts with a live one (`AddsDisjoint`: for zero-length CIDs the new connection's
-    tuple is not the tuple of a live incoming connection / its remote is not the remote of a live outgoing
-    connection, and vice versa); this is the exact side condition -/
-def Admissible (cidLen : Nat) (pref : Bool) (ops : List Op) : Prop :=
-  Along NoFailedConnect (init cidLen pref) ops ∧ Along AddsDisjoint (init cidLen pref) ops
-
-/-- `Routing` holds after every history in which no two conflicting connections are live at the same time
-    and no `connect` fails in TLS -/
-theorem routing_partial (cidLen : Nat) (pref : Bool) (ops : List Op) (s : State)
-    (hadm : Admissible cidLen pref ops) (hr : run cidLen pref ops = some s) : Routing s :=
-  ⟨sound_run hadm.1 hr, fun h0 h m g _ => (tinv_run hadm.2 hr).complete h0 h m g⟩
-
-def routing_sound_statement : Prop :=
-  ∀ (cidLen : Nat) (pref : Bool) (ops : List Op) (s : State), run cidLen pref ops = some s → Sound s
-
-/-- connect-leak witness: `connect` fails in TLS after `new_cid` registered the local CID -/
-def leak_witness : List Op := [.connect ⟨167772161, 4433⟩ [1, 1, 1, 1, 1, 1, 1, 1] false [[0xaa, 0, 0, 1]]]
-
-def leak_final : State :=
-  { cidLen := 4, prefAddr := false, index := { ids := [([0xaa, 0, 0, 1], 0)] } }
-
-theorem leak_witness_run : run 4 false leak_witness = some leak_final := by decide
-
-/-- `Sound` is FALSE of the code as it is: after a failed `connect` the CID table maps a CID to a handle
-    that is not live (and that the next connection will be given) -/
-theorem routing_sound_counterexample : ¬ routing_sound_statement := by
-  intro hst
-  have hs := hst 4 false leak_witness leak_final leak_witness_run
-  obtain ⟨m, q, hg, _⟩ := hs.ids_sound [0xaa, 0, 0, 1] 0 (by decide)
-  simp [leak_final, Slab.get, Slab.empty] at hg
-
-/-- every key in every table maps to a live handle that owns it, every issued unretired CID and every
-    initial DCID maps to its connection — for ALL histories without a TLS-failed `connect`, including those
-    in which connections share address tuples -/
-theorem routing_sound_partial (cidLen : Nat) (pref : Bool) (ops : List Op) (s : State)
-    (hok : Along NoFailedConnect (init cidLen pref) ops) (hr : run cidLen pref ops = some s) : Sound s :=
-  sound_run hok hr
+/-- zero-length CIDs: as long as tuple keys are not shared, every live connection is registered under its
+    address tuple (incoming) / remote (outgoing) -/
+theorem routing_tuples (pref : Bool) (ops : List Op) (s : State)
+    (hu : UniqueTupleKeys 0 pref ops) (hr : run 0 pref ops = some s) : TupleComplete s :=
+  (tinv_run hu hr).complete (cidLen_run hr)
 
 /-! ### routing decisions -/
 
@@ -121,35 +51,63 @@ theorem routing_sound_partial (cidLen : Nat) (pref : Bool) (ops : List Op) (s : 
     or has an empty DCID and comes from `h`'s address tuple, or ends in the reset token `h`'s peer
     currently uses, from that peer's address -/
 theorem route_correct (cidLen : Nat) (pref : Bool) (ops : List Op) (s : State)
-    (hok : Along NoFailedConnect (init cidLen pref) ops) (hr : run cidLen pref ops = some s)
+    (hr : run cidLen pref ops = some s)
     (a : FourTuple) (d : Dgram) (h : Nat) (hroute : route s a d = some (.connection h)) :
     ∃ m, s.conns.get h = some m ∧ Owns m a d :=
-  route_conn_owns (sound_run hok hr) hroute
+  route_conn_owns (sound_run hr) hroute
 
 /-- a datagram is buffered for a pending attempt only if it is an Initial/0-RTT with that attempt's DCID -/
 theorem route_incoming_correct (cidLen : Nat) (pref : Bool) (ops : List Op) (s : State)
-    (hok : Along NoFailedConnect (init cidLen pref) ops) (hr : run cidLen pref ops = some s)
+    (hr : run cidLen pref ops = some s)
     (a : FourTuple) (d : Dgram) (i : Nat) (hroute : route s a d = some (.incoming i)) :
     d.initialOr0rtt = true ∧ ∃ p, s.incoming.get i = some p ∧ p.dcid = d.dstCid :=
-  route_incoming_pending (sound_run hok hr) hroute
+  route_incoming_pending (sound_run hr) hroute
 
 /-- every CID issued to and not retired by a live connection routes to it, from any address, in any
     packet type, with any payload (rotation, retirement in any order, migration) -/
 theorem issued_cid_routes (cidLen : Nat) (pref : Bool) (ops : List Op) (s : State)
-    (hok : Along NoFailedConnect (init cidLen pref) ops) (hr : run cidLen pref ops = some s)
+    (hr : run cidLen pref ops = some s)
     (h q : Nat) (m : Meta) (c : Cid) (hm : s.conns.get h = some m) (hq : alookup q m.locCids = some c)
     (hne : c ≠ []) (a : FourTuple) (k : Bool) (data : Bytes) :
     route s a ⟨k, c, data⟩ = some (.connection h) :=
-  route_issued_cid (sound_run hok hr) hm hq hne a k data
+  route_issued_cid (sound_run hr) hm hq hne a k data
 
-/-- zero-length CIDs, admissible histories: a short-header datagram from a live incoming connection's
-    tuple reaches it -/
-theorem tuple_routes_partial (pref : Bool) (ops : List Op) (s : State)
-    (hadm : Admissible 0 pref ops) (hr : run 0 pref ops = some s)
+/-- zero-length CIDs: an accepted connection receives the short-header datagrams from its address tuple
+    from the moment it is accepted, through ANY later history, until it drains or a newer incoming
+    connection is accepted on the same tuple (`KeepsIn`) — in particular whatever other connections,
+    including ones on the same remote, are drained meanwhile (F5) -/
+theorem tuple_routes_until_superseded (pref : Bool) (ops1 ops2 : List Op) (s1 s2 s : State)
+    (idx ch : Nat) (p : Pending) (mode : AcceptMode) (cands : List Cid) (data : Bytes)
+    (hr1 : run 0 pref ops1 = some s1) (hp : s1.incoming.get idx = some p)
+    (hacc : accept s1 idx mode cands = some (s2, .ok ch))
+    (hk : Along (KeepsIn p.addresses ch) s2 ops2) (hr2 : runFrom s2 ops2 = some s) :
+    route s p.addresses ⟨false, [], data⟩ = some (.connection ch) := by
+  have hs1 := sound_run hr1
+  obtain ⟨p', hp', -, -, hreg⟩ := accept_lookups hs1 hacc
+  rw [hp] at hp'; cases hp'
+  have hl := hreg (cidLen_run hr1) ch rfl
+  have := in_entry_stable (sound_accept hs1 hacc) hl hk hr2
+  unfold route Index.get
+  simp [this]
+
+/-- the same for an outgoing connection and its remote (`KeepsOut`: not drained, no newer `connect` to the
+    same remote); the entry is what `get` consults once no incoming connection claims the datagram -/
+theorem remote_entry_until_superseded (pref : Bool) (ops1 ops2 : List Op) (s1 s2 s : State)
+    (remote : Addr) (initCid : Cid) (tls : Bool) (cands : List Cid) (ch : Nat)
+    (hr1 : run 0 pref ops1 = some s1)
+    (hcon : connect s1 remote initCid tls cands = some (s2, .ok ch))
+    (hk : Along (KeepsOut remote ch) s2 ops2) (hr2 : runFrom s2 ops2 = some s) :
+    alookup remote s.index.outRemotes = some ch := by
+  have hs1 := sound_run hr1
+  have hl := (connect_lookups hcon).2.2 (cidLen_run hr1) ch rfl
+  exact out_entry_stable (sound_connect hs1 hcon) hl hk hr2
+
+/-- zero-length CIDs, unshared tuple keys: a datagram from a live incoming connection's tuple reaches it -/
+theorem tuple_routes (pref : Bool) (ops : List Op) (s : State)
+    (hu : UniqueTupleKeys 0 pref ops) (hr : run 0 pref ops = some s)
     (h : Nat) (m : Meta) (hm : s.conns.get h = some m) (hside : m.side = .server) (data : Bytes) :
     route s m.addresses ⟨false, [], data⟩ = some (.connection h) := by
-  have hc : s.cidLen = 0 := cidLen_run hr
-  have := ((tinv_run hadm.2 hr).complete hc h m hm).1 hside
+  have := (routing_tuples pref ops s hu hr h m hm).1 hside
   unfold route Index.get
   simp [this]
 
@@ -160,42 +118,86 @@ theorem new_cid_unique (s s1 : State) (ch : Nat) (cands c1 : List Cid) (id : Cid
   · exact absurd rfl hne
   · exact hn
 
-/-! ### draining and slot reuse -/
+/-- a `connect` that fails (CIDs exhausted, bad remote address, TLS error) leaves no trace in any table -/
+theorem failed_connect_leaves_no_trace (s s' : State)
+    (remote : Addr) (initCid : Cid) (tls : Bool) (cands : List Cid) (res : ConnectResult)
+    (hc : connect s remote initCid tls cands = some (s', res)) (hfail : ∀ ch, res ≠ .ok ch) :
+    s'.conns = s.conns ∧ ∀ h, Mentions s' h → Mentions s h :=
+  connect_failed_same hc hfail
+
+/-! ### draining, isolation and slot reuse -/
 
 /-- `no_stale`: after `Drained(ch)` the slot is vacant and no table mentions `ch` -/
 theorem no_stale (cidLen : Nat) (pref : Bool) (ops : List Op) (s s' : State) (ch : Nat)
-    (hok : Along NoFailedConnect (init cidLen pref) ops) (hr : run cidLen pref ops = some s)
+    (hr : run cidLen pref ops = some s)
     (hd : evDrained s ch = some s') : s'.conns.get ch = none ∧ ¬ Mentions s' ch :=
-  ⟨(drained_vacates hd).1, no_stale_after_drained (sound_run hok hr) hd⟩
+  ⟨(drained_vacates hd).1, no_stale_after_drained (sound_run hr) hd⟩
+
+/-- isolation: `Drained(ch)` leaves every routing entry of every OTHER handle exactly as it was — address
+    tuples, remotes, (non-empty) CIDs, initial DCIDs of connections and of pending attempts -/
+theorem drained_isolation (cidLen : Nat) (pref : Bool) (ops : List Op) (s s' : State) (ch : Nat)
+    (hr : run cidLen pref ops = some s) (hd : evDrained s ch = some s') :
+    (∀ a h', alookup a s.index.inRemotes = some h' → h' ≠ ch → alookup a s'.index.inRemotes = some h') ∧
+    (∀ r h', alookup r s.index.outRemotes = some h' → h' ≠ ch → alookup r s'.index.outRemotes = some h') ∧
+    (∀ c h', c ≠ [] → alookup c s.index.ids = some h' → h' ≠ ch → alookup c s'.index.ids = some h') ∧
+    (∀ d h', alookup d s.index.idsInitial = some (.connection h') → h' ≠ ch →
+      alookup d s'.index.idsInitial = some (.connection h')) ∧
+    (∀ d i, alookup d s.index.idsInitial = some (.incoming i) →
+      alookup d s'.index.idsInitial = some (.incoming i)) := by
+  obtain ⟨d1, d2, d3, d4, d5, -, -⟩ := drained_lookups (sound_run hr) hd
+  exact ⟨d1, d2, d3, d4, d5⟩
 
 /-- `Drained` never trips the `debug_assert!` in `remove_initial` -/
 theorem drained_never_panics (cidLen : Nat) (pref : Bool) (ops : List Op) (s : State) (ch : Nat)
-    (hok : Along NoFailedConnect (init cidLen pref) ops) (hr : run cidLen pref ops = some s) :
+    (hr : run cidLen pref ops = some s) :
     evDrained s ch ≠ none :=
-  drained_ne_none (sound_run hok hr)
+  drained_ne_none (sound_run hr)
 
 /-- `slot_reuse_safe`: when a live connection's slot `ch` is drained the slot becomes the next one handed
     out, nothing in any table points at it, and whatever later history follows (new connections reusing the
     slot, rotation, more drains) a datagram is handed to `ch` only if it is addressed to the occupant of
     `ch` at that time (never because of anything the previous occupant owned) -/
 theorem slot_reuse_safe (cidLen : Nat) (pref : Bool) (ops1 ops2 : List Op) (s1 s2 s : State) (ch : Nat)
-    (mOld : Meta) (hok1 : Along NoFailedConnect (init cidLen pref) ops1)
+    (mOld : Meta)
     (hr1 : run cidLen pref ops1 = some s1) (hlive : s1.conns.get ch = some mOld)
     (hd : evDrained s1 ch = some s2)
-    (hok2 : Along NoFailedConnect s2 ops2) (hr2 : runFrom s2 ops2 = some s) :
+    (hr2 : runFrom s2 ops2 = some s) :
     (s2.conns.get ch = none ∧ ¬ Mentions s2 ch ∧ s2.conns.vacantKey = ch) ∧
     ∀ a d, route s a d = some (.connection ch) → ∃ m, s.conns.get ch = some m ∧ Owns m a d := by
-  have hs1 := sound_run hok1 hr1
+  have hs1 := sound_run hr1
   have hs2 := sound_drained hs1 hd
   exact ⟨⟨(drained_vacates hd).1, no_stale_after_drained hs1 hd, (drained_vacates hd).2 mOld hlive⟩,
-    fun a d hroute => route_conn_owns (sound_runFrom hs2 hok2 hr2) hroute⟩
+    fun a d hroute => route_conn_owns (sound_runFrom hs2 hr2) hroute⟩
 
 /-- the reset-token table maps only tokens that a live connection's peer currently uses -/
 theorem reset_tokens_current (cidLen : Nat) (pref : Bool) (ops : List Op) (s : State)
-    (hok : Along NoFailedConnect (init cidLen pref) ops) (hr : run cidLen pref ops = some s)
+    (hr : run cidLen pref ops = some s)
     (remote : Addr) (token : Token) (h : Nat) (hk : alookup (remote, token) s.index.tokens = some h) :
     ∃ m, s.conns.get h = some m ∧ m.resetToken = some (remote, token) :=
-  (sound_run hok hr).tok_sound _ _ hk
+  (sound_run hr).tok_sound _ _ hk
+
+/-! ### the two repaired defects: their witness histories now behave -/
+
+def tupleA : FourTuple := ⟨⟨167772161, 5000⟩, some 3232235777⟩
+
+/-- F5 witness (zero-length CIDs; `corpus/cindex/F5.ops`): a client reconnects from the same address tuple
+    while its first connection is still draining, then the first connection is drained -/
+def F5_witness : List Op :=
+  [.first tupleA [0xd1, 0xd1, 0xd1, 0xd1, 0xd1, 0xd1, 0xd1, 0xd1] [], .accept 0 .ok [],
+   .first tupleA [0xd2, 0xd2, 0xd2, 0xd2, 0xd2, 0xd2, 0xd2, 0xd2] [], .accept 0 .ok [],
+   .event 0 [] .drained]
+
+-- the second connection keeps its routing entry (before the repair: `none`)
+example : ∃ s, run 0 false F5_witness = some s ∧
+    route s tupleA ⟨false, [], [0x40, 1, 2]⟩ = some (.connection 1) ∧ s.conns.get 0 = none := by
+  refine ⟨_, rfl, ?_⟩
+  decide
+
+/-- connect-leak witness (`corpus/cindex/connect-leak.ops`): `connect` fails in TLS after `new_cid` -/
+def leak_witness : List Op := [.connect ⟨167772161, 4433⟩ [1, 1, 1, 1, 1, 1, 1, 1] false [[0xaa, 0, 0, 1]]]
+
+-- nothing stays registered (before the repair: `ids = [([0xaa, 0, 0, 1], 0)]`)
+example : run 4 false leak_witness = some (init 4 false) := by decide
 
 /-! ### non-vacuity: concrete histories that meet the hypotheses and exercise the tables -/
 
@@ -213,8 +215,7 @@ def history8 : List Op :=
    .event 1 [] (.resetToken remoteC tok), .event 0 [] .drained,
    .first tupleB [0xd2, 0xd2, 0xd2, 0xd2, 0xd2, 0xd2, 0xd2, 0xd2] [], .accept 0 .ok [cid 7, cid 8]]
 
-example : Admissible 8 true history8 :=
-  ⟨along_noFailed _ (by decide) _, along_addsDisjoint_of_cidLen (by decide)⟩
+example : UniqueTupleKeys 8 true history8 := along_addsDisjoint_of_cidLen (by decide)
 
 example : ∃ s, run 8 true history8 = some s ∧
     -- slot 0 was reused; its new occupant gets its own CIDs and the reset token reaches connection 1 ...
@@ -253,8 +254,7 @@ def history0_s3 : State :=
     conns := ⟨[.occupied history0_m0], 1⟩,
     incoming := ⟨[.occupied ⟨tupleB, [0xd2, 0xd2, 0xd2, 0xd2, 0xd2, 0xd2, 0xd2, 0xd2]⟩], 1⟩ }
 
-example : Admissible 0 false history0 := by
-  refine ⟨along_noFailed _ (by decide) _, ?_⟩
+example : UniqueTupleKeys 0 false history0 := by
   refine along_cons (s' := history0_s1) (by decide) trivial ?_
   refine along_cons (s' := history0_s2) (by decide) ?_ ?_
   · intro _ p _ h m hg; simp [history0_s1, Slab.get, Slab.empty] at hg
@@ -277,8 +277,19 @@ example : ∃ s, run 0 false history0 = some s ∧
   refine ⟨_, rfl, ?_⟩
   decide
 
--- the same two connections on ONE tuple (the F5 history before the drain) are not admissible, and after
--- `Drained 0` the survivor is unreachable:
-example : route F5_final tupleA ⟨false, [], [0x40, 1, 2]⟩ = none := by decide
+-- `tuple_routes_until_superseded` applies to the F5 history itself: connection 1 is accepted on the tuple of
+-- the live connection 0 (so the tuple keys are NOT unique), then 0 is drained; 1 keeps receiving
+def F5_s3 : State :=
+  { cidLen := 0, prefAddr := false,
+    index := { idsInitial := [([0xd2, 0xd2, 0xd2, 0xd2, 0xd2, 0xd2, 0xd2, 0xd2], .incoming 0),
+                              ([0xd1, 0xd1, 0xd1, 0xd1, 0xd1, 0xd1, 0xd1, 0xd1], .connection 0)],
+               inRemotes := [(tupleA, 0)] },
+    conns := ⟨[.occupied history0_m0], 1⟩,
+    incoming := ⟨[.occupied ⟨tupleA, [0xd2, 0xd2, 0xd2, 0xd2, 0xd2, 0xd2, 0xd2, 0xd2]⟩], 1⟩ }
+
+example : ∃ s2 s, run 0 false (F5_witness.take 3) = some F5_s3 ∧
+    accept F5_s3 0 .ok [] = some (s2, .ok 1) ∧
+    Along (KeepsIn tupleA 1) s2 [.event 0 [] .drained] ∧ runFrom s2 [.event 0 [] .drained] = some s := by
+  refine ⟨_, _, by decide, rfl, ⟨by simp [KeepsIn], by split <;> trivial⟩, rfl⟩
 
 end QM.Props.C09
